@@ -92,15 +92,50 @@ fn c03_platt_half_pos_f32() {
     kani::cover!(*p == 0.5 && z > 0.0);
 }
 
-// ---- monotone up to rounding -----------------------------------------------------------------
-// z1 <= z2  =>  p(z1) >= p(z2) * (1 - 2^-21); equal decision values give equal probabilities.
-// Split by the signs of z1, z2 (the three cases are exhaustive for z1 <= z2).
-// @unit class=complete tier=thorough mem=light timeout=1500 fns=linfa::composing::platt_scaling::platt_predict
+// ---- monotone -------------------------------------------------------------------------------
+// z1 <= z2  =>  p(z1) >= p(z2) (up to rounding, factor 1 - 2^-21).
+//  * across the sign boundary (z1 < 0 <= z2) this is a corollary of the two `half` units above
+//    (p(z1) >= 1/2 >= p(z2), exact) and needs no unit of its own;
+//  * equal decision values give equal probabilities: complete unit `c03_platt_functional_f32`;
+//  * within one sign the claim needs the monotonicity of an IEEE division in its divisor
+//    (1/(1+e)) resp. of e/(1+e) in e.  MEASURED: not decidable here over the full float domain -
+//    CaDiCaL 25 min, kissat / z3 / cvc5 15 min each, no answer (bit-blasted 24-bit dividers).  It is
+//    therefore checked on a GRID of exp values only (class=bounded): every value returned by the
+//    ghost exp is restricted to 0 or a float in [2^-8, 1] with an 8-bit significand; a, b, x stay
+//    arbitrary finite floats.  Neighbouring grid values differ by a relative 2^-8 >> 1 ulp, so on
+//    the grid the computed sigmoid must be monotone with the stated slack (1-ulp effects cannot
+//    reach it) and STRICTLY different where the exp values differ by a grid step at e >= 2^-7.
+fn on_grid(r: f32) -> bool { r == 0.0 || (r >= 0.00390625 && r <= 1.0 && (r.to_bits() & 0x0000_ffff) == 0) }
+fn grid_exp32(x: f32) -> f32 {
+    let r = ghost_exp32(x);
+    kani::assume(on_grid(r));
+    r
+}
+
+// @unit class=complete tier=quick mem=light timeout=600 fns=linfa::composing::platt_scaling::platt_predict
 #[kani::proof]
 #[kani::unwind(6)]
 #[kani::stub(f32::exp, ghost_exp32)]
 #[kani::stub(alloc::fmt::format, fmt_stub)]
-fn c03_platt_monotone_negneg_f32() {
+fn c03_platt_functional_f32() {
+    let (a, b, x1, x2): (f32, f32, f32, f32) = (kani::any(), kani::any(), kani::any(), kani::any());
+    kani::assume(a.is_finite() && b.is_finite() && x1.is_finite() && x2.is_finite());
+    let z1 = a * x1 + b;
+    let z2 = a * x2 + b;
+    kani::assume(z1.to_bits() == z2.to_bits());
+    let p1 = platt_predict(x1, a, b);
+    let p2 = platt_predict(x2, a, b);
+    assert!(p1.to_bits() == p2.to_bits());
+    kani::cover!(x1 != x2 && *p1 > 0.5 && *p1 < 1.0);
+    kani::cover!(x1 != x2 && *p1 < 0.5 && *p1 > 0.0);
+}
+
+// @unit class=bounded tier=thorough mem=light bound="exp values on the 8-bit-significand grid in [2^-8,1] or 0" timeout=1200 fns=linfa::composing::platt_scaling::platt_predict
+#[kani::proof]
+#[kani::unwind(6)]
+#[kani::stub(f32::exp, grid_exp32)]
+#[kani::stub(alloc::fmt::format, fmt_stub)]
+fn c03_platt_monotone_neg_grid() {
     let (a, b, x1, x2): (f32, f32, f32, f32) = (kani::any(), kani::any(), kani::any(), kani::any());
     kani::assume(a.is_finite() && b.is_finite() && x1.is_finite() && x2.is_finite());
     let z1 = a * x1 + b;
@@ -109,17 +144,17 @@ fn c03_platt_monotone_negneg_f32() {
     let p1 = platt_predict(x1, a, b);
     let p2 = platt_predict(x2, a, b);
     assert!(*p1 >= *p2 * SLACK);
-    if z1 == z2 { assert!(*p1 == *p2); }
-    kani::cover!(*p1 > *p2);
+    assert!(*p1 >= *p2);                 // exact on the grid
+    kani::cover!(*p1 > *p2 && *p2 > 0.5);
     kani::cover!(z1 < z2 && *p1 == *p2);
 }
 
-// @unit class=complete tier=thorough mem=light timeout=1500 fns=linfa::composing::platt_scaling::platt_predict
+// @unit class=bounded tier=thorough mem=light bound="exp values on the 8-bit-significand grid in [2^-8,1] or 0" timeout=1200 fns=linfa::composing::platt_scaling::platt_predict
 #[kani::proof]
 #[kani::unwind(6)]
-#[kani::stub(f32::exp, ghost_exp32)]
+#[kani::stub(f32::exp, grid_exp32)]
 #[kani::stub(alloc::fmt::format, fmt_stub)]
-fn c03_platt_monotone_pospos_f32() {
+fn c03_platt_monotone_pos_grid() {
     let (a, b, x1, x2): (f32, f32, f32, f32) = (kani::any(), kani::any(), kani::any(), kani::any());
     kani::assume(a.is_finite() && b.is_finite() && x1.is_finite() && x2.is_finite());
     let z1 = a * x1 + b;
@@ -128,30 +163,38 @@ fn c03_platt_monotone_pospos_f32() {
     let p1 = platt_predict(x1, a, b);
     let p2 = platt_predict(x2, a, b);
     assert!(*p1 >= *p2 * SLACK);
-    if z1 == z2 { assert!(*p1 == *p2); }
-    kani::cover!(*p1 > *p2);
+    assert!(*p1 >= *p2);                 // exact on the grid
+    kani::cover!(*p1 > *p2 && *p1 < 0.5 && *p2 > 0.0);
     kani::cover!(z1 < z2 && *p1 == *p2);
 }
 
-// @unit class=complete tier=thorough mem=light timeout=1500 fns=linfa::composing::platt_scaling::platt_predict
-#[kani::proof]
-#[kani::unwind(6)]
-#[kani::stub(f32::exp, ghost_exp32)]
-#[kani::stub(alloc::fmt::format, fmt_stub)]
-fn c03_platt_monotone_negpos_f32() {
-    let (a, b, x1, x2): (f32, f32, f32, f32) = (kani::any(), kani::any(), kani::any(), kani::any());
-    kani::assume(a.is_finite() && b.is_finite() && x1.is_finite() && x2.is_finite());
-    let z1 = a * x1 + b;
-    let z2 = a * x2 + b;
-    kani::assume(z1 < 0.0 && 0.0 <= z2);
-    let p1 = platt_predict(x1, a, b);
-    let p2 = platt_predict(x2, a, b);
-    assert!(*p1 >= *p2);            // exact here: p1 >= 1/2 >= p2
-    kani::cover!(*p1 > *p2);
-    kani::cover!(*p1 == *p2);
+// ---- Platt::predict_inplace over an arbitrary per-row inner model -----------------------------
+// Modular in `platt_predict`: the scalar sigmoid has its own complete units above, so here it is
+// replaced by an uninterpreted function (arbitrary result in [0,1], *functional*: same (x, a, b) bit
+// patterns => same result).  What is left to check is the wrapper's own job: one inner prediction
+// on the caller's records, one output per row, output i = platt_predict(inner(row i), A, B) with
+// the model's own A and B in that order.  (Measured: with the real sigmoid in place the equality
+// of two float divisions did not finish in 25 min.)
+static mut GP_X: [u64; 4] = [0; 4];
+static mut GP_A: [u64; 4] = [0; 4];
+static mut GP_B: [u64; 4] = [0; 4];
+static mut GP_R: [f32; 4] = [0.0; 4];
+static mut GP_N: usize = 0;
+fn ghost_platt<F: Float>(x: F, a: F, b: F) -> Pr {
+    let (x, a, b) = (x.to_f64().unwrap().to_bits(), a.to_f64().unwrap().to_bits(), b.to_f64().unwrap().to_bits());
+    let r: f32 = kani::any();
+    kani::assume(r >= 0.0 && r <= 1.0);
+    unsafe {
+        let mut i = 0;
+        while i < GP_N {
+            if x == GP_X[i] && a == GP_A[i] && b == GP_B[i] { kani::assume(r == GP_R[i]); }
+            i += 1;
+        }
+        if GP_N < 4 { GP_X[GP_N] = x; GP_A[GP_N] = a; GP_B[GP_N] = b; GP_R[GP_N] = r; GP_N += 1; }
+    }
+    Pr::new_unchecked(r)
 }
 
-// ---- Platt::predict_inplace over an arbitrary per-row inner model -----------------------------
 // Inner witness: decision value = symbolic finite table entry selected by the sign of the row's
 // only feature (an arbitrary per-row function with two classes of rows).
 struct InnerModel { dv: [f32; 2] }
@@ -169,7 +212,7 @@ impl PredictInplace<Array2<f32>, Array1<f32>> for InnerModel {
     fn default_target(&self, x: &Array2<f32>) -> Array1<f32> { Array1::zeros(x.nrows()) }
 }
 fn platt_rows(n: usize, via_blanket: bool) -> Array1<Pr> {
-    unsafe { INNER_CALLS = 0; }
+    unsafe { INNER_CALLS = 0; GP_N = 0; }
     let (a, b): (f32, f32) = (kani::any(), kani::any());
     let dv: [f32; 2] = kani::any();
     let r: [f32; 2] = kani::any();
@@ -193,31 +236,30 @@ fn platt_rows(n: usize, via_blanket: bool) -> Array1<Pr> {
     while i < n {
         let want = platt_predict(m.obj.f(r[i]), a, b);
         assert!(*out[i] == *want);
-        assert!(*out[i] >= 0.0 && *out[i] <= 1.0);
         i += 1;
     }
     unsafe { assert!(INNER_CALLS == 1); }
-    if n == 2 {
-        kani::cover!(*out[0] != *out[1]);
-        kani::cover!(r[0] > 0.0 && r[1] < 0.0 && *out[0] < *out[1]);
-    }
+    // the records are untouched
+    let mut i = 0;
+    while i < n { assert!(x[(i, 0)] == r[i]); i += 1; }
     out
 }
 
-// @unit class=bounded tier=quick mem=light bound="rows=2" timeout=900 fns=linfa::composing::platt_scaling::Platt::predict_inplace,linfa::composing::platt_scaling::Platt::default_target,linfa::composing::platt_scaling::platt_predict
+// @unit class=bounded tier=quick mem=light bound="rows=2" timeout=900 fns=linfa::composing::platt_scaling::Platt::predict_inplace,linfa::composing::platt_scaling::Platt::default_target
 #[kani::proof]
 #[kani::unwind(6)]
-#[kani::stub(f32::exp, ghost_exp32)]
+#[kani::stub(platt_predict, ghost_platt)]
 #[kani::stub(alloc::fmt::format, fmt_stub)]
 fn c03_platt_inplace_n2() {
     let out = platt_rows(2, true);
     kani::cover!(*out[0] > 0.5 && *out[1] < 0.5);
+    kani::cover!(*out[0] == *out[1]);
 }
 
-// @unit class=bounded tier=thorough mem=light bound="rows=0..1" timeout=900 fns=linfa::composing::platt_scaling::Platt::predict_inplace,linfa::composing::platt_scaling::Platt::default_target,linfa::composing::platt_scaling::platt_predict
+// @unit class=bounded tier=thorough mem=light bound="rows=0..1" timeout=900 fns=linfa::composing::platt_scaling::Platt::predict_inplace,linfa::composing::platt_scaling::Platt::default_target
 #[kani::proof]
 #[kani::unwind(6)]
-#[kani::stub(f32::exp, ghost_exp32)]
+#[kani::stub(platt_predict, ghost_platt)]
 #[kani::stub(alloc::fmt::format, fmt_stub)]
 fn c03_platt_inplace_n01() {
     let e = platt_rows(0, false);
